@@ -348,12 +348,37 @@ def acceptburst(case, res):
                     S.request(c, "info")
                 conns.append(c)
             S.request(own, "change", {"path": "b/s", "value": rnd + 1})
+            fault = rng.random() < 0.45
+            if fault:
+                # the set-up of ONE of these connections fails (a system call on the freshly accepted socket, its registration):
+                # that one is lost, the others - still waiting in the queue at that moment - are served as usual
+                import errno as E
+                call = rng.choice(["fcntl", "setsockopt", "getsockname", "epoll_ctl", "setsockopt"])
+                S.sim.inject(call, rng.randrange(1, 2 * k), rng.choice([E.ENOBUFS, E.ENOMEM, E.EINVAL]))
+                S.inject_active = True
+                for c in conns:
+                    c.healthy, c.may_close = False, True
             S.settle()
-            S.sig("accept-burst", t, min(k, 12))
+            S.sig("accept-burst", t, min(k, 12), fault)
             S.stats["burst_connections"] += k
+            if fault:
+                for call in ("fcntl", "setsockopt", "getsockname", "epoll_ctl"):
+                    S.sim.inject(call, 0, 0)
+                S.stats["burst_setup_faults"] += 1
+                lost = [c for c in conns if c.closed and not c.ended]
+                if len(lost) > 1:
+                    S.v("conn/one-failed-set-up-cost-several-connections", "%d of %d (%s)" % (len(lost), k, t))
+                    break
+                for c in conns:
+                    if c.closed:
+                        continue
+                    c.healthy = True
+                    if any(p.state == "sent" and p.key is not None for p in c.pending.values()) and c.accepted and not c.ended:
+                        S.v("rpc/request-not-answered", "on %s of a burst in which another connection's set-up failed" % c.name)
+                        break
             for c in conns:
-                if not c.accepted and not c.ended:
-                    S.v("conn/pending-connection-not-accepted", "%s (%s) of a burst of %d" % (c.name, t, k))
+                if not c.accepted and not c.ended and not c.closed:
+                    S.v("conn/pending-connection-not-accepted", "%s (%s) of a burst of %d%s" % (c.name, t, k, " in which one set-up failed" if fault else ""))
                     break
             for c in conns:
                 if not c.closed and not c.ended:
